@@ -36,7 +36,8 @@ type Op struct {
 
 	Scenario string `json:"scenario,omitempty"` // html, css(file of that scenario)
 	File     string `json:"file,omitempty"`     // css: file name inside the scenario dir
-	Text     string `json:"text,omitempty"`     // css: inline stylesheet text (instead of File)
+	Text     string `json:"text,omitempty"`     // css: inline stylesheet text (instead of File); entry: the text to parse
+	Kind     string `json:"kind,omitempty"`     // entry: which parser entry point (selector | stylesheet | declarations | tokens | svg | dataurl | color | nth | style_attr)
 	Engine   string `json:"engine,omitempty"`   // fontconfig: pango | gotext
 	Input    string `json:"input,omitempty"`    // html: url (default) | reader | string
 	Chunk    uint64 `json:"chunk,omitempty"`    // html via reader: seed of chunk sizes (0 = one chunk)
